@@ -202,6 +202,12 @@ class Evaluator:
             return static(v)
         if isinstance(v, (contracts.Contract, contracts.SpecFn, contracts.SpecPred)):
             return static(v)
+        import logging as _logging
+        if isinstance(v, _logging.Logger):
+            return static(v)
+        if id(v) in getattr(self.W, 'const_objects', {}):
+            term, obj = self.W.const_objects[id(v)]
+            return SV(TObj(type(obj)), [term])
         if callable(v):
             return static(v)
         raise Unsupported('constant %r' % (v,))
@@ -384,6 +390,16 @@ class Evaluator:
         return out
 
     def get_attr(self, v, name, s):
+        if isinstance(v.ty, TFunc) and isinstance(v.py.obj, tuple) and v.py.obj[0] == 'super':
+            mro = inspect.getmro(v.py.obj[1])[1:]
+            for k in mro:
+                if name in vars(k):
+                    fn = vars(k)[name]
+                    st_ = Static(fn, recv=v.py.recv)
+                    st_.nodispatch = True
+                    return [(s, SV(TFunc(), (), py=st_))]
+            st_ = Static(('noop',), recv=None)      # object.__init__
+            return [(s, SV(TFunc(), (), py=st_))]
         if isinstance(v.ty, TFunc):
             obj = v.py.obj
             return [(s, self.attr_static(obj, name, s.heap))]
